@@ -1,5 +1,6 @@
 import MesaModel.Model.Viz
 import MesaModel.Model.VizLayers
+import MesaModel.Model.VizAltair
 /-!
 Line-protocol driver for the Viz model (C20).  One output line per input line.
 Producer: harness/viz_common.py.
@@ -14,6 +15,7 @@ Producer: harness/viz_common.py.
   place A X Y | move A X Y | remove A | ghost A
   collect | collectd COLOR SIZE MARKER ZORDER
   draw | altair | heap | drawc | altairc   (…c: through the solara component)
+  drawc0 | altairc0                  the components without a portrayal (their defaults: `{}`, `{"id": unique_id}`)
   layer v…                           property layer `v`: values, x-major (W*H ints);  layern NAME v…: layer NAME
   drawlayers SPEC…                   SPEC = NAME:MODE:ALPHA:VMIN:VMAX:CBAR, MODE ∈ color=C cmap=C none, ALPHA percent,
                                      VMIN / VMAX ints, CBAR ∈ y n; `-` for a key the portrayal leaves out
@@ -110,17 +112,6 @@ def fmtErr : Err → String
 def fmtDict (d : Dict) : String :=
   ",".intercalate ((d.mergeSort fun a b => strLe a.1 b.1).map fun kv => s!"{kv.1}={kv.2}")
 
-def fmtAltair (rows : List Dict) : String :=
-  let enc := (if altairEncodes rows "color" then ["color"] else []) ++ (if altairEncodes rows "size" then ["size"] else [])
-  rows.foldl (fun acc r => acc ++ " | " ++ orDash (fmtDict r)) s!"ok enc={orDash ("+".intercalate enc)}"
-
-def fmtHeap (h : Heap) : String :=
-  (h.zipIdx.foldl (fun acc (d, i) => acc ++ s!" {i}:" ++ "{" ++ fmtDict d ++ "}") "ok")
-
-def fmtOptInt : Option Int → String
-  | none => "?"
-  | some v => toString v
-
 /-- a fraction in lowest terms: `0`, `1`, `n/d` -/
 def fmtFrac (f : Frac) : String :=
   let g := Nat.gcd f.num.natAbs f.den
@@ -128,6 +119,21 @@ def fmtFrac (f : Frac) : String :=
   let n := f.num / (g : Int)
   let d := f.den / g
   if d = 1 then toString n else s!"{n}/{d}"
+
+def fmtAltair (c : AltairChart) : String :=
+  let enc := (if c.color then ["color"] else []) ++ (if c.size then ["size"] else [])
+  let mark := match c.markSize with
+    | none => "-"
+    | some f => fmtFrac f
+  c.rows.foldl (fun acc r => acc ++ " | " ++ orDash (fmtDict r))
+    s!"ok enc={orDash ("+".intercalate enc)} xy={c.xyType} tip={orDash ("+".intercalate c.tooltip)} mark={mark}"
+
+def fmtHeap (h : Heap) : String :=
+  (h.zipIdx.foldl (fun acc (d, i) => acc ++ s!" {i}:" ++ "{" ++ fmtDict d ++ "}") "ok")
+
+def fmtOptInt : Option Int → String
+  | none => "?"
+  | some v => toString v
 
 def fmtOptFrac : Option Frac → String
   | none => "?"
@@ -316,13 +322,24 @@ def stepLine (st : St) (ws : List String) : St × String :=
       | .error e => (st, fmtErr e)
   | ["altairc"] =>   -- through the solara component SpaceAltair: the same _draw_grid call
     withSpace st fun sp =>
-      match altairRows sp st.heap st.portrayal with
-      | .ok rows => (st, fmtAltair rows)
+      match altairChart sp st.heap st.portrayal with
+      | .ok c => (st, fmtAltair c)
       | .error e => (st, fmtErr e)
   | ["altair"] =>
     withSpace st fun sp =>
-      match altairRows sp st.heap st.portrayal with
-      | .ok rows => (st, fmtAltair rows)
+      match altairChart sp st.heap st.portrayal with
+      | .ok c => (st, fmtAltair c)
+      | .error e => (st, fmtErr e)
+  | ["altairc0"] =>   -- make_altair_space(agent_portrayal=None): every agent is portrayed by its id
+    withSpace st fun sp =>
+      let (heap, p) := defaultAltairPortrayal (spaceAgents sp)
+      match altairChart sp heap p with
+      | .ok c => (st, fmtAltair c)
+      | .error e => (st, fmtErr e)
+  | ["drawc0"] =>   -- make_mpl_space_component(agent_portrayal=None): every agent is portrayed by `{}`
+    withSpace st fun sp =>
+      match drawSpace sp [] (fun _ => none) with
+      | .ok gs => (st, fmtDraw gs)
       | .error e => (st, fmtErr e)
   | ["heap"] => withSpace st fun _ => (st, fmtHeap st.heap)
   | "layer" :: vs => withSpace st fun sp => setLayer st sp "v" vs
